@@ -22,6 +22,9 @@ pub struct SynCfg<'a> {
     pub max_depth: usize,
     pub max_operands: usize,
     pub statements: bool,
+    /// extra function names / reference names to use often (registered or context-bound ones)
+    pub extra_funcs: Vec<String>,
+    pub extra_names: Vec<String>,
 }
 
 impl<'a> SynCfg<'a> {
@@ -62,6 +65,8 @@ impl<'a> SynCfg<'a> {
             max_depth: 4,
             max_operands: 12,
             statements: true,
+            extra_funcs: vec![],
+            extra_names: vec![],
         }
     }
 }
@@ -150,11 +155,23 @@ fn gen_atom(src: &mut Src, cfg: &SynCfg, depth: usize, out: &mut Vec<Tok>) {
     let k = if deep { src.weighted(&[5, 4, 2, 2]) } else { src.weighted(&[5, 4, 2, 2, 3, 2, 2, 4]) };
     match k {
         0 => out.push(t(TK::Num, *src.choose(&NUMS))),
-        1 => out.push(t(TK::Ref, *src.choose(&NAMES))),
+        1 => {
+            if !cfg.extra_names.is_empty() && src.chance(1, 2) {
+                let n = src.choose(&cfg.extra_names).clone();
+                out.push(t(TK::Ref, &n));
+            } else {
+                out.push(t(TK::Ref, *src.choose(&NAMES)));
+            }
+        }
         2 => out.push(t(TK::Bool, *src.choose(&BOOLS))),
         3 => out.push(t(TK::Str, *src.choose(&STRS))),
         4 => {
-            out.push(t(TK::Func, *src.choose(&FUNCS)));
+            if !cfg.extra_funcs.is_empty() && src.chance(2, 3) {
+                let n = src.choose(&cfg.extra_funcs).clone();
+                out.push(t(TK::Func, &n));
+            } else {
+                out.push(t(TK::Func, *src.choose(&FUNCS)));
+            }
             out.push(t(TK::Delim, "("));
             let n = src.weighted(&[2, 4, 3, 1]);
             for i in 0..n {
